@@ -177,5 +177,31 @@ func propTable() map[string]*PropSpec {
 			Outside:     []string{"field lengths other than the listed ones (the statement quantifies over 0..256); more than 4 votes / 3 prepare senders (statement: 0..20)"},
 		}
 	}
+	// ---------------- C08 ----------------
+	{
+		var q, th []RunConfig
+		kinds := []string{"PP", "P", "C", "VC"}
+		for _, pf := range []int{0, 1, 2, 3, 4, 5} {
+			for kind := 0; kind <= 2; kind++ {
+				c := rc(fmt.Sprintf("C08_OneMessage/prefix=%d/kind=%s", pf, kinds[kind]), ".", "C08_OneMessage", map[string]int{"prefix": pf, "kind": kind})
+				th = append(th, c)
+				if pf != 1 {
+					q = append(q, c)
+				}
+			}
+			for _, k := range []int{-1, 0, 1, 2, 3} {
+				c := rc(fmt.Sprintf("C08_OneMessage/prefix=%d/kind=VC/prepares=%d", pf, k), ".", "C08_OneMessage", map[string]int{"prefix": pf, "kind": 3, "prepares": k})
+				th = append(th, c)
+				if (pf == 3 || pf == 4) && (k == -1 || k == 2) {
+					q = append(q, c)
+				}
+			}
+		}
+		t["C08"] = &PropSpec{ID: "C08", Quick: q, Thorough: th,
+			Assumptions: []string{"ideal signature registry; block commitment / proposal validation stubs (zzverifstub); committee of 4 with equal weights; node index symbolic (0..3)", "every adversarial field is symbolic: instance, header type tag, height, view (64 bit), hash byte, sender id byte (members and outsiders), signature validity bit + 8 arbitrary bytes, share validity, block presence/fields, all proof fields"},
+			Bounds:      []string{"one symbolic message per run, delivered through RawMessageFilter -> ConsensusMessagesFilter -> TermInCommittee in 6 prefix states (fresh, proposal accepted, prepared, timed out with/without lock, committed); prepared proofs with <= 3 PREPARE senders; hashes and ids one byte long"},
+			Outside:     []string{"two or more adversarial messages in sequence (covered for specific shapes by C10/C01 harnesses); committees other than 4 equal-weight members; NEW_VIEW contents (C07)"},
+		}
+	}
 	return t
 }
